@@ -33,10 +33,12 @@ def direct_case(draw, nmax=24):
     base = draw(st.sampled_from([1, 1, emax // 3]))
     ent = []
     lim = 126 if single else 1021
+    # global magnitude shift: all entries near the overflow or underflow threshold (amax > LARGE / amax < SMALL row-scaling rule)
+    shift = draw(st.sampled_from([0, 0, 0, lim - 4, lim - 20, lim - 45, -(lim - 4), -(lim - 20), -(lim - 45)]))
     for j in range(n):
         for i in range(m):
             if rng.random() < dens or i == j % m:
-                e = int(rexp[i] + cexp[j] + rng.integers(-base, base + 1)); e = max(-lim, min(lim, e))
+                e = int(rexp[i] + cexp[j] + rng.integers(-base, base + 1)) + shift; e = max(-lim, min(lim, e))
                 mant = float(rng.uniform(1, 2)) if draw(st.booleans()) else 1.0
                 v = mant * 2.0 ** e * (1 if rng.random() < 0.5 else -1)
                 w = float(rng.uniform(-1, 1)) * 2.0 ** e if cplx else 0.0
